@@ -127,8 +127,9 @@ CLAIMED['C13'] = dict(
         "the harness; numpy.linalg.eigh is not modelled, the eigenvalues are compared with eigh(cov)*exp(log_lambda) directly). Source tie "
         "(Props/C13_src.v): the window test of every _update, regenerated from /repo by tools/py2coq.py on every run, equals the model's for "
         "all inputs, and the translator refuses an _update that does anything outside its guarded block; the scalar arithmetic inside the windows "
-        "(decaying gains, sign and size of every log-scale step incl. each component of the componentwise variants and the solid-angle "
-        "concentration, the Veitch increment) is regenerated too (tools/py2coq_num.py) and proved equal to the model's over the reals. A user-supplied adaptation_decay larger than 1/log10(duration) reverses the Veitch direction: outside the theorem's premise and the quantifier.",
+        "(the whole new value of every log-scale - decaying gain, sign and size of the step - incl. each component of the componentwise variants "
+        "and the solid-angle concentration, and the Veitch increment) is regenerated too (tools/py2coq_num.py, which follows the block's "
+        "temporaries symbolically) and proved equal to the model's over the reals. A user-supplied adaptation_decay larger than 1/log10(duration) reverses the Veitch direction: outside the theorem's premise and the quantifier.",
    technique="Coq proof over Reals (monotonicity of exp/ln/power, window arithmetic on Z) + vm_compute correspondence of the float instance",
    ref="DESIGN.md section 3, C13")
 CLAIMED['C14'] = dict(
